@@ -340,7 +340,7 @@ func init() {
 			if tier == "thorough" {
 				return 20 * time.Minute
 			}
-			return 100 * time.Second
+			return 240 * time.Second
 		},
 		Run: func(c *mc.Ctx) {
 			base := int64(0)
